@@ -1017,6 +1017,13 @@ def upstreamConditionHandler (u : Upstream) (c : Cluster) : M Upstream := do
   let st ← updateUpstreamStateCondition u.state c
   storeSyncFlowControls { u with state := st } c.schemas
 
+/-- a new TERM: another replica (or the same one after losing the lease) starts leading the shard
+    (`startLeading`: `NewLimitStore`, `Load()`, then `UpstreamConditionHandler` for every cluster of the shard). The
+    API-backed store (`persist = true`) `Load()`s the conditions the previous leader flushed; the local store starts
+    empty. The flow controls and `currentFlowControlSpec` live in memory only: they are gone in both. -/
+def newTerm (persist : Bool) (u : Upstream) : Upstream :=
+  if persist then { u with flowControls := [], currentSpec := [] } else emptyUpstream
+
 /-- `calculateNextQuota`: which members of the answer are set. The numbers are C07's subject; `quota` is the
     oracle for `(next, burst)`. -/
 def calculateNextQuota (quota : Str → Int × Int) (upstreamTotal : Item) (flowControlConfig : Item) : M Item :=
